@@ -256,8 +256,11 @@ func (w *World) triggerReady(a Action) bool {
 		return ok && st == a.N
 	case "terminal":
 		// pipeline durable status is not running/recovering
-		st, _, ok := w.db.durableStatus(PipelineID)
+		st, ok := w.or.effStatus(w)
 		return ok && st != 1 && st != 5
+	case "restarting":
+		// an automatic restart is under way (falls back to "settled" when none ever comes)
+		return w.or != nil && (w.or.ctl.restartInProgress || w.or.settled(w))
 	case "quiet":
 		return w.or != nil && w.or.quiescent(w)
 	case "settled":
@@ -551,7 +554,7 @@ func (s *Sim) settleReconf(client string) {
 func (s *Sim) settleControl(client string) {
 	w := s.w
 	ctx := context.Background()
-	st, _, ok := w.db.durableStatus(PipelineID)
+	st, ok := w.or.effStatus(w)
 	if ok && st == 1 {
 		if err := s.call(client, "stopwait", PipelineID, func(st *Stack) error { return st.life.StopAndWait(ctx, PipelineID) }); err != nil {
 			// e.g. another stop is already draining the pipeline: wait for that one to finish
@@ -562,7 +565,7 @@ func (s *Sim) settleControl(client string) {
 	if w.or.ctl.shutdown || w.hasViolation() || strings.HasPrefix(w.cfg.Scenario, "fatal-") {
 		return // the server is shutting down / the pipeline is broken for good: nothing is started any more
 	}
-	st, _, _ = w.db.durableStatus(PipelineID)
+	st, _ = w.or.effStatus(w)
 	if st == 1 || st == 5 {
 		return
 	}
